@@ -1273,9 +1273,10 @@ def interplin(vin, xin, uin):
 
     xmp1 = xm + 1
 
-    # differences of unsigned integers wrap around
+    # differences of unsigned integers wrap around, and so do differences
+    # and products of narrow signed ones
     v, x, u = [
-        a.astype("f8") if a.dtype.kind == "u" else a for a in (v, x, u)
+        a.astype("f8") if a.dtype.kind in "ui" else a for a in (v, x, u)
     ]
     return (u - x[xm]) * (v[xmp1] - v[xm]) / (x[xmp1] - x[xm]) + v[xm]
 
